@@ -450,6 +450,30 @@ theorem parseAll_valid : ∀ (src : List Rule) (exp : Nat) (acc rs : List Rule),
       simp only [parseAll] at h
       exact ih _ _ _ h (valid_append acc _ hv rfl) (by intro h1; cases h1)
 
+theorem insertRuleTextCore_valid (pre : Bool) (rules src : List Rule) (idx : Nat) (inOrder : Bool) (r : InsRes)
+    (hv : Valid rules) (h : insertRuleTextCore pre rules src idx inOrder = .ok r) : Valid r.rules := by
+  unfold insertRuleTextCore at h
+  cases hp : setCssText (if pre = true then rules.take 1 ++ src else src) with
+  | error e => rw [hp] at h; cases h
+  | ok rs =>
+    rw [hp] at h
+    simp only at h
+    by_cases hl : rs.length ≠ (if pre = true then 2 else 1)
+    · rw [if_pos hl] at h; cases h
+    · rw [if_neg hl] at h
+      cases hr : rs[if pre = true then 1 else 0]? with
+      | none => rw [hr] at h; cases h
+      | some r0 => rw [hr] at h; exact insertRule_valid rules r0 _ inOrder r hv h
+
+theorem insertRuleText_valid (rules src : List Rule) (index : Option Nat) (inOrder : Bool) (r : InsRes)
+    (hv : Valid rules) (h : insertRuleText rules src index inOrder = .ok r) : Valid r.rules := by
+  unfold insertRuleText at h
+  simp only at h
+  by_cases hidx : index.getD rules.length > rules.length
+  · rw [if_pos hidx] at h; cases h
+  · rw [if_neg hidx] at h
+    exact insertRuleTextCore_valid _ rules src _ inOrder r hv h
+
 theorem applyOp_valid (valid : Name → Bool) (rules rs : List Rule) (op : Op) (hv : Valid rules)
     (h : applyOp valid rules op = .ok rs) : Valid rs := by
   cases op with
@@ -460,6 +484,13 @@ theorem applyOp_valid (valid : Name → Bool) (rules rs : List Rule) (op : Op) (
     · rename_i x hx
       simp only [Except.ok.injEq] at h; subst h
       exact insertRule_valid rules r i o x hv hx
+    · cases h
+  | insertText src i o =>
+    simp only [applyOp] at h
+    split at h
+    · rename_i x hx
+      simp only [Except.ok.injEq] at h; subst h
+      exact insertRuleText_valid rules src i o x hv hx
     · cases h
   | insertCharsetNamed n i o =>
     simp only [applyOp] at h
